@@ -25,6 +25,7 @@ package modbus
 
 //@ iface net.Conn.Write(p []byte) (n int, err error)
 //@   ghostset faults := old(faults) + ite(err != nil, int(1), int(0))
+//@   ghostset writeFaults := old(writeFaults) + ite(err != nil, int(1), int(0))
 //@   ensures dyntype(err) != *packet.ErrorResponseRTU && dyntype(err) != *packet.ErrorResponseTCP && dyntype(err) != *ClientError
 //@   requires[C14] muState == 2
 //@   requires[C19] bwCount > writes ==> p == bwBuf
@@ -33,6 +34,7 @@ package modbus
 
 //@ iface net.Conn.SetWriteDeadline(t time.Time) (err error)
 //@   ghostset faults := old(faults) + ite(err != nil, int(1), int(0))
+//@   ghostset writeFaults := old(writeFaults) + ite(err != nil, int(1), int(0))
 //@   ensures dyntype(err) != *packet.ErrorResponseRTU && dyntype(err) != *packet.ErrorResponseTCP && dyntype(err) != *ClientError
 //@   requires[C14] muState == 2
 //@   modifies nothing
@@ -105,9 +107,10 @@ package modbus
 //@   safety[C08,C07,C19]
 //@   structural[C08]
 //@   modifies[C08] nothing
-//@   modifies streamPos, reads, lastN, lastErr, lastBuf, hookReads, writes, bwCount, bwBuf, ctxErr, faults, flushes, timerNs, timers, sleeps, timerWrites, timerSleeps
+//@   modifies streamPos, reads, lastN, lastErr, lastBuf, hookReads, writes, bwCount, bwBuf, ctxErr, faults, flushes, timerNs, timers, sleeps, timerWrites, timerSleeps, writeFaults
 //@   ensures[C08.timer] timers <= old(timers) + 1 && (timers > old(timers) ==> timerNs == int(c.readTimeout))
 //@   ensures[C07.timer,C08.timer] timers > old(timers) ==> timerWrites == old(writes) + 1
+//@   ensures[C08.fault] writeFaults > old(writeFaults) ==> err != nil && dyntype(err) == *ClientError && reads == old(reads)
 //@   fresh[C07] res
 //@   ensures[C07,C12,C19] err == nil ==> len(res) == streamPos - old(streamPos) && 1 <= len(res) && len(res) <= 260 && forall k in 0..len(res) :: res[k] == stream[old(streamPos) + k]
 //@   ensures[C07] err == nil ==> len(res) >= expectedLen || (errIs(lastErr, io.EOF) && faults > old(faults))
@@ -146,7 +149,7 @@ package modbus
 //@   guarded[C14] conn, address, hooks
 //@   shared[C14] conn, address
 //@   modifies[C08] nothing
-//@   modifies streamPos, reads, lastN, lastErr, lastBuf, hookReads, writes, bwCount, bwBuf, ctxErr, faults, flushes, bpCount, bpBuf, parseCount, lastDoRes, timerNs, timers, sleeps, timerWrites, timerSleeps
+//@   modifies streamPos, reads, lastN, lastErr, lastBuf, hookReads, writes, bwCount, bwBuf, ctxErr, faults, flushes, bpCount, bpBuf, parseCount, lastDoRes, timerNs, timers, sleeps, timerWrites, timerSleeps, writeFaults
 //@   ensures[C08.timer] timers <= old(timers) + 1 && (timers > old(timers) ==> timerNs == int(c.readTimeout))
 //@   ensures[C08] err != nil ==> nilish(resp)
 //@   ensures[C08] req == nil ==> err != nil && writes == old(writes) && reads == old(reads)
@@ -235,6 +238,7 @@ package modbus
 
 //@ iface io.ReadWriteCloser.Write(p []byte) (n int, err error)
 //@   ghostset faults := old(faults) + ite(err != nil, int(1), int(0))
+//@   ghostset writeFaults := old(writeFaults) + ite(err != nil, int(1), int(0))
 //@   requires[C14] muState == 2
 //@   requires[C19] bwCount > writes ==> p == bwBuf
 //@   modifies nothing
@@ -282,9 +286,10 @@ package modbus
 //@   safety[C08,C07,C19]
 //@   structural[C08]
 //@   modifies[C08] nothing
-//@   modifies streamPos, reads, lastN, lastErr, lastBuf, hookReads, writes, bwCount, bwBuf, ctxErr, faults, flushes, timerNs, timers, sleeps, timerWrites, timerSleeps
+//@   modifies streamPos, reads, lastN, lastErr, lastBuf, hookReads, writes, bwCount, bwBuf, ctxErr, faults, flushes, timerNs, timers, sleeps, timerWrites, timerSleeps, writeFaults
 //@   ensures[C08.timer] timers <= old(timers) + 1 && (timers > old(timers) ==> timerNs == int(c.readTimeout))
 //@   ensures[C07.timer,C08.timer] timers > old(timers) ==> timerWrites == old(writes) + 1 && timerSleeps == old(sleeps) + 1
+//@   ensures[C08.fault] writeFaults > old(writeFaults) ==> err != nil && dyntype(err) == *ClientError && reads == old(reads)
 //@   fresh[C07] res
 //@   ensures[C07,C12,C19] err == nil ==> len(res) == streamPos - old(streamPos) && 1 <= len(res) && len(res) <= 256 && forall k in 0..len(res) :: res[k] == stream[old(streamPos) + k]
 //@   ensures[C07] err == nil ==> len(res) >= expectedLen
@@ -321,7 +326,7 @@ package modbus
 //@   lockdiscipline[C14]
 //@   guarded[C14] serialPort, hooks
 //@   modifies[C08] nothing
-//@   modifies streamPos, reads, lastN, lastErr, lastBuf, hookReads, writes, bwCount, bwBuf, ctxErr, faults, flushes, bpCount, bpBuf, parseCount, lastDoRes, timerNs, timers, sleeps, timerWrites, timerSleeps
+//@   modifies streamPos, reads, lastN, lastErr, lastBuf, hookReads, writes, bwCount, bwBuf, ctxErr, faults, flushes, bpCount, bpBuf, parseCount, lastDoRes, timerNs, timers, sleeps, timerWrites, timerSleeps, writeFaults
 //@   ensures[C08.timer] timers <= old(timers) + 1 && (timers > old(timers) ==> timerNs == int(c.readTimeout))
 //@   ensures[C08] err != nil ==> nilish(resp)
 //@   ensures[C08] req == nil ==> err != nil && writes == old(writes) && reads == old(reads)
